@@ -1,4 +1,5 @@
 import ShkModel.Lemmas.Period
+import ShkModel.Lemmas.Unprompted
 /-!
 # C02 — activation periods are judged independently and are always closed
 
@@ -366,6 +367,34 @@ theorem new_rule_closes :
     ((run exSigOnly [.sig 1 (exSample 5)] 10).aud "sig").auditing = false ∧
       proj "sig" (run exSigOnly [.sig 1 (exSample 5)] 10).out.reverse =
         [.start, .rep 1 .info, .rep 2 .bad, .stop] := by decide
+
+/-! ## 6. An auditor that nothing wakes
+
+`q audits throughout` / `q expects eventually: [a ready] > 0`, and `ready` never arrives: the period of `q` is
+the whole play, "whatever variables and signals the auditor's expressions happen to mention" — but the loop only
+visited auditors one of whose variables had been assigned, so `q` was never visited, its period never opened and
+the final round had nothing to close: no judgement at all, status 0.  Repaired in /repo: an auditor whose
+condition depends on nothing is visited until its period has started. -/
+
+/-- **the period of an `audits throughout` auditor is open from the start of the play**, whatever its other
+expressions mention (every configuration with distinct member names; `Unconditional`: the condition reads no
+variable and is true) -/
+theorem throughout_open_from_start (c : Cfg) (hnd : (c.members.map (·.name)).Nodup) (m : Member)
+    (hm : m ∈ c.members) (hu : Unconditional m) (h : (start c).abort = none) :
+    ((start c).aud m.name).auditing = true :=
+  start_opens c hnd m hm hu h
+
+/-- witness of the defect (kernel evaluation): with the rule before the repair `q` is never judged … -/
+theorem woken_rule_never_judges :
+    proj "q" (runWoken exThroughout [] 10).out.reverse = [] ∧ (runWoken exThroughout [] 10).abort = none := by
+  decide
+
+/-- … with the repaired rule its period spans the play and `eventually` is disappointed at the end -/
+theorem unprompted_rule_judges :
+    proj "q" (run exThroughout [] 10).out.reverse = [.start, .rep 2 .bad, .stop] := by decide
+
+example : ∀ m ∈ exThroughout.members, Unconditional m := by
+  intro m hm; simp [exThroughout] at hm; subst hm; exact ⟨by decide, by decide, fun _ => rfl⟩
 
 /-! ## Non-vacuity -/
 
